@@ -177,6 +177,12 @@ fn run_pair(a: &Rendered, b: &Rendered, what: &str, inputs: Value) -> Result<boo
 }
 
 fn run_pair_opt(a: &Rendered, b: &Rendered, what: &str, inputs: Value, compare_trees: bool) -> Result<bool, Violation> {
+    run_pair_io(a, b, what, inputs, compare_trees, None)
+}
+
+/// `io`: Some(stdin) = the programs may read the keyboard and touch files: both runs get the same stdin bytes and an
+/// emptied scratch directory.
+fn run_pair_io(a: &Rendered, b: &Rendered, what: &str, inputs: Value, compare_trees: bool, io: Option<&[u8]>) -> Result<bool, Violation> {
     // (1) parse trees
     let ta = ast_of(&a.text);
     let tb = ast_of(&b.text);
@@ -245,8 +251,21 @@ fn run_pair_opt(a: &Rendered, b: &Rendered, what: &str, inputs: Value, compare_t
     let (Ok(xa), Ok(xb)) = (impl_run::codegen(pa, ca), impl_run::codegen(pb, cb)) else {
         return Ok(false); // codegen panics are C08's business
     };
-    let oa = impl_run::run(xa, &RunOpts::budget(1_500_000));
-    let ob = impl_run::run(xb, &RunOpts::budget(1_500_000));
+    let opts = match io {
+        Some(stdin) => RunOpts::budget(1_500_000).with_stdin(stdin),
+        None => RunOpts::budget(1_500_000),
+    };
+    if io.is_some() {
+        clean_cwd();
+    }
+    let oa = impl_run::run(xa, &opts);
+    if io.is_some() {
+        clean_cwd();
+    }
+    let ob = impl_run::run(xb, &opts);
+    if io.is_some() {
+        clean_cwd();
+    }
     if matches!(oa.end, End::Budget) && matches!(ob.end, End::Budget) {
         return Ok(false);
     }
@@ -297,6 +316,11 @@ fn one_case(sh: &mut Shard, tape: &[u32]) -> Result<(), Violation> {
     let lay_b = random_layout(&mut t);
     let fault = t.choose(6); // 0..=3: accepted program; 4, 5: a rejected one (static fault injected)
     let which = t.raw();
+    // one case in four gets additional DEFtype statements, one in three a second, text-level re-casing of layout b
+    let more_deftypes = t.chance(1, 4);
+    let recase = t.chance(1, 3);
+    let recase_seed = t.raw() as u64;
+    let dcells: Vec<u32> = (0..16).map(|_| t.raw()).collect();
     let used = t.used();
     let rest = &tape[used.min(tape.len())..];
     let (mut prog, kind) = gen_program(&mut t, rest);
@@ -310,8 +334,22 @@ fn one_case(sh: &mut Shard, tape: &[u32]) -> Result<(), Violation> {
             what = format!("{}-rejected", kind);
         }
     }
+    let mut def_classes: Vec<&'static str> = vec![];
+    if more_deftypes {
+        def_classes = add_deftypes(&mut Tape::new(&dcells), &mut prog);
+    }
+    for (_, x, y) in &prog.deftypes {
+        if !more_deftypes {
+            def_classes.push(if x == y { "deftype-generated:single-letter" } else { "deftype-generated:ascending-range" });
+        }
+    }
     let a = render(&prog, &lay_a);
-    let b = render(&prog, &lay_b);
+    let mut b = render(&prog, &lay_b);
+    if recase {
+        // every letter of every token outside strings, comments and DATA, independently (columns are unchanged)
+        b.text = flip_letters(&b.text, Flip::Random(recase_seed), false);
+        b.changed_sites += 1;
+    }
     sh.eval();
     if a.text == b.text {
         sh.discard("the two layouts render identically");
@@ -322,8 +360,28 @@ fn one_case(sh: &mut Shard, tape: &[u32]) -> Result<(), Violation> {
     let ran = run_pair(&a, &b, &what, inputs)?;
     sh.class(&format!("program:{}", what));
     sh.class(&format!("eol:{:?}->{:?}", lay_a.eol, lay_b.eol));
-    if lay_b.case_mode > 0 {
+    if lay_b.case_mode > 0 || recase {
         sh.class("case-changed");
+    }
+    if recase {
+        sh.class("case-changed-per-letter-on-text");
+    }
+    for c in &def_classes {
+        sh.class(c);
+    }
+    if !prog.deftypes.is_empty() {
+        sh.class("program-with-deftype");
+        let (lu_a, ul_a) = mixed_case_ranges(&a.text);
+        let (lu_b, ul_b) = mixed_case_ranges(&b.text);
+        if lu_a + lu_b > 0 {
+            sh.class("deftype-range-written-lower-upper");
+        }
+        if ul_a + ul_b > 0 {
+            sh.class("deftype-range-written-upper-lower");
+        }
+        if !ran {
+            sh.class("program-with-deftype-rejected");
+        }
     }
     if lay_b.colons > 0 {
         sh.class("colon-joins");
@@ -548,18 +606,448 @@ fn corpus_case(sh: &mut Shard, text: &str, tape: &[u32]) -> Result<(), Violation
     Ok(())
 }
 
+
+// ---------------------------------------------------------------- per-letter case changes on program text
+
+#[derive(Clone, Copy, Debug, PartialEq)]
+enum Flip {
+    /// every eligible letter independently
+    Random(u64),
+    Lower,
+    Upper,
+    /// alternate lower/upper over the eligible letters, starting with lower (false) or upper (true)
+    Alternate(bool),
+}
+
+impl Flip {
+    fn name(&self) -> &'static str {
+        match self {
+            Flip::Random(_) => "random",
+            Flip::Lower => "lower",
+            Flip::Upper => "upper",
+            Flip::Alternate(false) => "alternate-lower-first",
+            Flip::Alternate(true) => "alternate-upper-first",
+        }
+    }
+}
+
+/// Changes the case of every letter that belongs to a keyword, an identifier (variable, array, label, procedure,
+/// parameter, TYPE, member, constant name; with or without a type suffix), a type name after AS, a file-mode word
+/// or a DEFtype range letter — each letter independently. Untouched: string literals, comments (`'` and REM),
+/// everything after DATA on its line, the radix letter of `&H..` / `&O..` literals and (unless `hex`) their digits A-F.
+/// Line structure and columns are preserved exactly.
+fn flip_letters(text: &str, flip: Flip, hex: bool) -> String {
+    let cs: Vec<char> = text.chars().collect();
+    let mut out = String::with_capacity(text.len());
+    let mut n_letter: u64 = 0;
+    let mut put = |out: &mut String, ch: char| {
+        if !ch.is_ascii_alphabetic() {
+            out.push(ch);
+            return;
+        }
+        n_letter += 1;
+        let upper = match flip {
+            Flip::Random(seed) => hash64(&(seed, n_letter)) % 2 == 1,
+            Flip::Lower => false,
+            Flip::Upper => true,
+            Flip::Alternate(first_upper) => (n_letter % 2 == 1) == first_upper,
+        };
+        out.push(if upper { ch.to_ascii_uppercase() } else { ch.to_ascii_lowercase() });
+    };
+    let mut i = 0;
+    let eol = |c: char| c == '\n' || c == '\r';
+    while i < cs.len() {
+        let ch = cs[i];
+        if ch == '"' {
+            // string literal: verbatim up to the closing quote or the end of the line
+            out.push(ch);
+            i += 1;
+            while i < cs.len() && !eol(cs[i]) {
+                out.push(cs[i]);
+                i += 1;
+                if cs[i - 1] == '"' {
+                    break;
+                }
+            }
+        } else if ch == '\'' {
+            while i < cs.len() && !eol(cs[i]) {
+                out.push(cs[i]);
+                i += 1;
+            }
+        } else if ch == '&' && i + 1 < cs.len() && matches!(cs[i + 1], 'H' | 'h' | 'O' | 'o') {
+            // the radix letter stays as written (the property speaks of keywords and identifiers; a lower-case
+            // `&h` / `&o` is not accepted by this parser at all); with `hex` the digits A-F are re-cased
+            out.push(ch);
+            out.push(cs[i + 1]);
+            i += 2;
+            while i < cs.len() && cs[i].is_ascii_alphanumeric() {
+                if hex {
+                    put(&mut out, cs[i]);
+                } else {
+                    out.push(cs[i]);
+                }
+                i += 1;
+            }
+        } else if ch.is_ascii_alphabetic() {
+            let mut j = i;
+            while j < cs.len() && (cs[j].is_ascii_alphanumeric() || cs[j] == '.') {
+                j += 1;
+            }
+            let word: String = cs[i..j].iter().collect::<String>().to_ascii_uppercase();
+            let suffixed = j < cs.len() && matches!(cs[j], '$' | '%' | '!' | '#' | '&');
+            for k in i..j {
+                put(&mut out, cs[k]);
+            }
+            i = j;
+            if !suffixed && (word == "REM" || word == "DATA") {
+                while i < cs.len() && !eol(cs[i]) {
+                    out.push(cs[i]);
+                    i += 1;
+                }
+            }
+        } else {
+            out.push(ch);
+            i += 1;
+        }
+    }
+    out
+}
+
+/// A site map with one site per source line (case changes never move a token).
+fn rendered_by_rows(text: &str) -> Rendered {
+    let mut m = std::collections::BTreeMap::new();
+    let norm = text.replace("\r\n", "\n").replace('\r', "\n");
+    for (i, l) in norm.split('\n').enumerate() {
+        m.insert(format!("row/{}", i + 1), crate::genr::print::Site { row: i as u32 + 1, col_start: 1, col_end: l.chars().count() as u32 + 1, proc_: None, after_colon: false });
+    }
+    Rendered { text: text.to_string(), sites: m, rows: 0, changed_sites: 0 }
+}
+
+fn names_as_strings(text: &str) -> bool {
+    let up = text.to_uppercase();
+    up.contains("FIELD") || up.contains("LSET")
+}
+
+const FAMILY_STDIN: &[u8] = b"alpha\r\n12\r\nbeta, gamma\r\n7\r\n";
+
+/// Verdict classes of one text (for the histogram only; never an oracle).
+fn verdict_of(text: &str) -> &'static str {
+    match impl_run::front(text) {
+        Ok(_) => "accepted",
+        Err(FrontErr::Parse { .. }) => "rejected-by-parser",
+        Err(FrontErr::Lint { .. }) => "rejected-by-checker",
+        Err(FrontErr::Panic { .. }) => "panic",
+    }
+}
+
+/// One pair (text, the same text with letters re-cased).
+fn letters_case(sh: &mut Shard, family: &str, class: &str, a_text: &str, b_text: &str, flip_name: &str, hex: bool) -> Result<(), Violation> {
+    sh.eval();
+    if a_text == b_text {
+        sh.discard("the case change left the text unchanged");
+        return Ok(());
+    }
+    sh.journal(b_text);
+    // signature: the family and the token-class group (one root cause shows under one group, not one per template)
+    let what = if family == "deftype" { "deftype".to_string() } else { format!("{}:{}", family, class.split('-').next().unwrap_or(class)) };
+    let inputs = json!({"kind": "letters", "text_a": a_text, "text_b": b_text, "what": what, "class": class, "flip": flip_name, "hex_letters_changed": hex});
+    let a = rendered_by_rows(a_text);
+    let b = rendered_by_rows(b_text);
+    let ran = run_pair_io(&a, &b, &what, inputs, !names_as_strings(a_text), Some(FAMILY_STDIN))?;
+    let verdict = if ran { "ran-both" } else { verdict_of(a_text) };
+    sh.class(&format!("{}:{}:{}", family, class, verdict));
+    sh.class(&format!("{}-verdict:{}", family, verdict));
+    sh.class(&format!("{}-flip:{}", family, flip_name));
+    sh.nontrivial(hash64(&(a_text, b_text)));
+    Ok(())
+}
+
+// ---------------------------------------------------------------- family 1: every letter-carrying token class, both verdicts
+
+/// (token class, program). Written in one spelling; every occurrence of a name is re-cased independently by the
+/// flips, so that a definition and its uses differ in case. Rejected programs are members on purpose: the property
+/// demands the same rejection for every spelling.
+fn token_class_family() -> Vec<(&'static str, &'static str)> {
+    vec![
+        ("keywords-blocks", "FOR I = 1 TO 5 STEP 2\n  IF I = 1 THEN\n    PRINT \"One\"\n  ELSEIF I = 3 THEN\n    PRINT \"Three\"\n  ELSE\n    PRINT \"Other\"\n  END IF\nNEXT I\nJ = 0\nWHILE J < 2\n  J = J + 1\nWEND\nDO\n  J = J + 1\nLOOP UNTIL J > 4\nDO WHILE J < 7\n  J = J + 1\nLOOP\nDO UNTIL J > 8\n  J = J + 1\nLOOP\nDO\n  J = J + 1\nLOOP WHILE J < 3\nSELECT CASE J\nCASE 1 TO 3\n  PRINT \"low\"\nCASE IS > 8\n  PRINT \"high\"\nCASE 4, 5\n  PRINT \"four-five\"\nCASE ELSE\n  PRINT \"mid\"\nEND SELECT\nIF J > 1 THEN PRINT \"a\" ELSE PRINT \"b\"\nEND\n"),
+        ("keywords-operators", "A = 7\nB = 3\nPRINT A MOD B; A AND B; A OR B; NOT A\nIF A > B AND NOT (A = B) OR B = 0 THEN PRINT \"yes\"\nPRINT NOT(A) + 1\nC = A MOD B MOD 2\nPRINT C\n"),
+        ("builtin-functions", "S$ = \"Hello, World\"\nPRINT LEN(S$); UCASE$(S$); LCASE$(S$)\nPRINT MID$(S$, 2, 3); LEFT$(S$, 2); RIGHT$(S$, 2)\nPRINT INSTR(S$, \"World\"); INSTR(3, S$, \"l\")\nPRINT CHR$(65); STR$(5); VAL(\"12\")\nPRINT LTRIM$(\"  x\"); RTRIM$(\"x  \"); SPACE$(2); STRING$(3, \"x\"); STRING$(2, 65)\nD$ = MKD$(1.5)\nPRINT CVD(D$)\nPRINT ERR\n"),
+        ("builtin-rejected", "S$ = \"Hello\"\nPRINT LEN(S$); UCASE$(S$, 1)\n"),
+        ("builtin-rejected-type", "PRINT LCASE$(5)\n"),
+        ("print-forms", "X = 3.14159\nPRINT USING \"##.##\"; X\nPRINT USING \"###\"; 12\nLPRINT \"to printer\"; X\nLPRINT USING \"#.#\"; X\nPRINT \"a\", \"b\"; \"c\"\nPRINT\n"),
+        ("labels", "GOSUB Work\nGOTO Finish\nWork:\nPRINT \"working\"\nRETURN\nFinish:\nPRINT \"done\"\n"),
+        ("labels-jumps", "N = 0\nAgain:\nN = N + 1\nIF N < 3 THEN GOTO Again\nIF N = 3 THEN GOTO Again2\nPRINT \"not here\"\nAgain2:\nPRINT N\nGOSUB Inner\nEND\nInner:\nPRINT \"inner\"\nRETURN\n"),
+        ("labels-error-handler", "ON ERROR GOTO Handler\nX% = 32767\nX% = X% + 1\nPRINT \"after\"\nON ERROR GOTO 0\nEND\nHandler:\nPRINT \"error\"; ERR\nRESUME NEXT\n"),
+        ("labels-resume-label", "ON ERROR GOTO Trap\nOPEN \"c09-none.txt\" FOR INPUT AS #1\nPRINT \"not reached\"\nOut1:\nPRINT \"out\"\nEND\nTrap:\nPRINT ERR\nRESUME Out1\n"),
+        ("labels-duplicate", "Again:\nPRINT 1\nAgain:\nPRINT 2\n"),
+        ("labels-undefined", "Start:\nPRINT 1\nGOTO Strat\n"),
+        ("labels-undefined-gosub", "GOSUB Missing\nEND\nPresent:\nRETURN\n"),
+        ("names-suffixes", "Total = 1\nTotal! = Total! + 1\nPRINT Total; Total!\nName$ = \"s\"\nPRINT Name$; LEN(Name$)\nCount% = 3\nBig& = 100000\nRatio# = 1 / 3\nPRINT Count%; Big&; Ratio#\nTotal% = 9\nPRINT Total; Total%\n"),
+        ("names-dim-as", "DIM Total AS LONG, Title AS STRING, Ratio AS DOUBLE\nDIM Flag AS INTEGER\nDIM Small AS SINGLE\nDIM Fixed AS STRING * 4\nTotal = 70000\nTitle = \"t\"\nRatio = 1 / 3\nFlag = 7 / 2\nSmall = 1 / 3\nFixed = \"abcdefg\"\nPRINT Total; Title; Ratio; Flag; Small; Fixed\n"),
+        ("names-duplicate-dim", "DIM Counter AS INTEGER\nDIM Counter AS INTEGER\nPRINT Counter\n"),
+        ("names-duplicate-dim-types", "DIM Counter AS INTEGER\nDIM Counter AS STRING\n"),
+        ("names-dim-then-suffix", "DIM Counter AS INTEGER\nCounter$ = \"x\"\n"),
+        ("names-type-mismatch", "Title$ = \"a\"\nTitle$ = 5\n"),
+        ("constants", "CONST Limit = 10\nCONST Greeting$ = \"hi\"\nCONST Twice = Limit * 2\nPRINT Limit + 1; Greeting$; Twice\nFOR I = 1 TO Limit\nNEXT\nPRINT I\n"),
+        ("constants-assigned", "CONST Limit = 10\nLimit = 11\n"),
+        ("constants-duplicate", "CONST Limit = 10\nCONST Limit = 11\n"),
+        ("constants-then-dim", "CONST Limit = 10\nDIM Limit AS INTEGER\n"),
+        ("arrays", "DIM Grid(1 TO 3, 2) AS INTEGER\nDIM Names$(4)\nGrid(1, 0) = 5\nNames$(2) = \"two\"\nPRINT Grid(1, 0); LBOUND(Grid); UBOUND(Grid, 2); Names$(2)\nREDIM Flex(5) AS LONG\nFlex(5) = 9\nREDIM Flex(7) AS LONG\nPRINT Flex(5); UBOUND(Flex)\nFOR I = LBOUND(Names$) TO UBOUND(Names$)\n  Names$(I) = STR$(I)\nNEXT I\nPRINT Names$(4)\n"),
+        ("arrays-duplicate", "DIM Grid(3) AS INTEGER\nDIM Grid(4) AS INTEGER\n"),
+        ("arrays-wrong-dimensions", "DIM Grid(3) AS INTEGER\nGrid(1, 2) = 4\n"),
+        ("arrays-out-of-range", "DIM Grid(3) AS INTEGER\nIdx = 4\nGrid(Idx) = 4\nPRINT \"no\"\n"),
+        ("types", "TYPE Card\n  Suit AS STRING * 5\n  Value AS INTEGER\n  Weight AS DOUBLE\nEND TYPE\nTYPE Hand\n  First AS Card\n  Size AS LONG\nEND TYPE\nDIM C AS Card\nDIM H AS Hand\nDIM Deck(2) AS Card\nC.Value = 3\nC.Suit = \"heart\"\nH.First = C\nH.First.Weight = 1 / 3\nH.Size = 70000\nDeck(1) = C\nDeck(1).Value = Deck(1).Value + 1\nPRINT C.Value; C.Suit; H.First.Value; H.First.Weight; H.Size; Deck(1).Value\n"),
+        ("types-duplicate-member", "TYPE Card\n  Value AS INTEGER\n  Value AS LONG\nEND TYPE\n"),
+        ("types-duplicate-type", "TYPE Card\n  Value AS INTEGER\nEND TYPE\nTYPE Card\n  Other AS INTEGER\nEND TYPE\n"),
+        ("types-undefined-type", "TYPE Card\n  Value AS INTEGER\nEND TYPE\nDIM C AS Kard\n"),
+        ("types-undefined-member", "TYPE Card\n  Value AS INTEGER\nEND TYPE\nDIM C AS Card\nC.Valve = 1\n"),
+        ("types-member-type-mismatch", "TYPE Card\n  Value AS INTEGER\nEND TYPE\nDIM C AS Card\nC.Value = \"x\"\n"),
+        ("procedures", "DECLARE SUB Show (N AS INTEGER, Msg$)\nDECLARE FUNCTION Twice% (N%)\nDECLARE FUNCTION Join$ (A$, B AS STRING)\nShow 2, \"hi\"\nCALL Show(3, \"yo\")\nPRINT Twice%(4); Twice(5)\nPRINT Join$(\"a\", \"b\")\nSUB Show (N AS INTEGER, Msg$)\n  PRINT N; Msg$\n  IF N > 2 THEN EXIT SUB\n  PRINT \"small\"\nEND SUB\nFUNCTION Twice% (N%)\n  Twice% = N% * 2\n  IF N% > 4 THEN EXIT FUNCTION\nEND FUNCTION\nFUNCTION Join$ (A$, B AS STRING)\n  Join$ = A$ + B\nEND FUNCTION\n"),
+        ("procedures-shared-static", "DIM SHARED Total AS INTEGER\nDIM SHARED Log$(3)\nTotal = 1\nBump\nBump\nPRINT Total; Log$(1)\nKeep\nKeep\nSUB Bump\n  Total = Total + 1\n  Log$(1) = Log$(1) + \"b\"\nEND SUB\nSUB Keep STATIC\n  Calls = Calls + 1\n  PRINT Calls\nEND SUB\n"),
+        ("procedures-byref", "Value% = 1\nRaise Value%\nRaise (Value%)\nPRINT Value%\nDIM Arr(2) AS INTEGER\nFill Arr()\nPRINT Arr(2)\nSUB Raise (V%)\n  V% = V% + 10\nEND SUB\nSUB Fill (A() AS INTEGER)\n  A(2) = 5\nEND SUB\n"),
+        ("procedures-duplicate", "SUB Show\n  PRINT 1\nEND SUB\nSUB Show\n  PRINT 2\nEND SUB\n"),
+        ("procedures-duplicate-function-sub", "SUB Show\n  PRINT 1\nEND SUB\nFUNCTION Show\n  Show = 2\nEND FUNCTION\n"),
+        ("procedures-undefined", "Show 1\nSUB Shaw (N)\nEND SUB\n"),
+        ("procedures-argument-count", "Show 1, 2\nSUB Show (N)\nEND SUB\n"),
+        ("procedures-declare-mismatch", "DECLARE SUB Show (N AS INTEGER)\nShow 1\nSUB Show (N AS LONG)\nEND SUB\n"),
+        ("procedures-name-clash", "DIM Show AS INTEGER\nSUB Show\nEND SUB\n"),
+        ("procedures-duplicate-parameter", "SUB Show (N, N)\nEND SUB\n"),
+        ("for-next-counter", "FOR Index = 1 TO 2\n  FOR Inner% = 1 TO 2\n    PRINT Index; Inner%\n  NEXT Inner%\nNEXT Index\n"),
+        ("for-next-mismatch", "FOR Index = 1 TO 2\n  PRINT Index\nNEXT Indez\n"),
+        ("files-sequential", "OPEN \"c09-a.txt\" FOR OUTPUT AS #1\nPRINT #1, \"first\"; 5\nPRINT #1, \"x, y\"\nCLOSE #1\nOPEN \"c09-a.txt\" FOR APPEND AS #2\nPRINT #2, \"more\"\nCLOSE\nOPEN \"c09-a.txt\" FOR INPUT AS #1\nLINE INPUT #1, L$\nINPUT #1, P$, Q$\nPRINT L$; P$; Q$; EOF(1)\nWHILE NOT EOF(1)\n  LINE INPUT #1, L$\n  PRINT L$\nWEND\nCLOSE #1\nNAME \"c09-a.txt\" AS \"c09-b.txt\"\nKILL \"c09-b.txt\"\n"),
+        ("files-access-modes", "OPEN \"c09-c.txt\" FOR OUTPUT AS #1\nPRINT #1, \"w\"\nCLOSE #1\nOPEN \"c09-c.txt\" FOR INPUT ACCESS READ AS #1\nLINE INPUT #1, L$\nCLOSE #1\nPRINT L$\n"),
+        ("files-random", "OPEN \"c09-r.dat\" FOR RANDOM AS #1 LEN = 12\nFIELD #1, 8 AS Rec$, 4 AS Tail$\nLSET Rec$ = \"ab\"\nLSET Tail$ = \"zz\"\nPUT #1, 1\nLSET Rec$ = \"cd\"\nPUT #1, 2\nGET #1, 1\nPRINT Rec$; Tail$\nCLOSE #1\n"),
+        ("files-wrong-mode", "OPEN \"c09-d.txt\" FOR OUTPUT AS #1\nLINE INPUT #1, L$\nPRINT \"no\"\n"),
+        ("files-bad-mode-word", "OPEN \"c09-d.txt\" FOR OUTPUTS AS #1\n"),
+        ("console-input", "INPUT First$\nINPUT N\nLINE INPUT Whole$\nINPUT Last%\nPRINT First$; N; Whole$; Last%\n"),
+        ("data-read", "READ A, B$\nREAD C\nDATA 1, \"Two\"\nPRINT A; B$; C\nREAD D, E$\nPRINT D; E$\nDATA 5\nDATA 6, \"Seven\"\n"),
+        ("screen-and-environment", "CLS\nLOCATE 2, 3\nCOLOR 7, 0\nVIEW PRINT 1 TO 10\nPRINT \"x\"\nVIEW PRINT\nENVIRON \"C09VAR=abc\"\nPRINT ENVIRON$(\"C09VAR\")\nDEF SEG = 100\nDEF SEG\n"),
+        ("hex-octal-literals", "PRINT &HFF; &H1A; &O17; &HABC; &HFFFF; &H7FFF\nX& = &HABCDE\nPRINT X&\n"),
+        ("comments", "' Leading Remark with Keywords PRINT GOTO\nPRINT 1 ' Trailing Comment DIM X\nPRINT \"REM inside string ' stays\"\nRemark = 2 : ' After Colon\nPRINT Remark\n"),
+        ("colon-statements", "A = 1: B = 2: PRINT A; B: IF A < B THEN PRINT \"lt\": PRINT \"also\"\nFOR I = 1 TO 2: PRINT I: NEXT I\n"),
+        ("end-system", "PRINT 1\nSYSTEM\nPRINT 2\n"),
+        ("syntax-errors", "PRINT 1\nIF X THEN\nPRINT 2\nEND IFF\n"),
+        ("syntax-errors-keyword-as-name", "Dim = 1\n"),
+        ("syntax-errors-unclosed-block", "WHILE X < 1\nX = X + 1\n"),
+        ("syntax-errors-else-without-if", "PRINT 1\nELSE\n"),
+        ("deftype-and-names", "DEFINT A-C, X\nDEFSTR S-U\nDEFDBL D\nApple = 7 / 2\nCount = 7 / 2\nXray = 7 / 2\nYak = 7 / 2\nTitle = \"t\"\nDelta = 1 / 3\nPRINT Apple; Count; Xray; Yak; Title; Delta\nPRINT Apple%; Yak!; Title$; Delta#; Area(3)\nShow 1\nSUB Show (Arg)\n  Blob = 5 / 2\n  PRINT Arg; Blob\nEND SUB\nFUNCTION Area (Edge)\n  Area = Edge * Edge / 2\nEND FUNCTION\n"),
+    ]
+}
+
+fn family_flips(seed: u64, i: usize, random_reps: u64) -> Vec<Flip> {
+    let mut v = vec![Flip::Lower, Flip::Upper, Flip::Alternate(false), Flip::Alternate(true)];
+    for k in 0..random_reps {
+        v.push(Flip::Random(hash64(&(seed, "family", i, k))));
+    }
+    v
+}
+
+// ---------------------------------------------------------------- family 2: DEFtype statements, enumerated
+
+const DEF_KEYWORDS: [(&str, Ty); 5] = [("DEFINT", Ty::Int), ("DEFLNG", Ty::Long), ("DEFSNG", Ty::Single), ("DEFDBL", Ty::Double), ("DEFSTR", Ty::Str)];
+/// (first, last) with first < last alphabetically; a letter strictly between them exists except for the adjacent pair
+const DEF_LETTER_PAIRS: [(char, char); 5] = [('A', 'Z'), ('C', 'M'), ('I', 'N'), ('X', 'Y'), ('B', 'T')];
+const DEF_SHAPES: [&str; 9] = ["single", "ascending", "reversed", "same-letter", "two-ranges", "letter-and-range", "range-and-reversed", "two-statements", "range-then-override"];
+
+fn with_case(c: char, upper: bool) -> char {
+    if upper { c.to_ascii_uppercase() } else { c.to_ascii_lowercase() }
+}
+
+/// The DEFtype program of one point of the enumeration. `cl`/`cr`: is the first/second letter of the main range
+/// written in upper case. `other`: bit mask for the case of the remaining letters and of the probe names.
+fn deftype_program(kw: &str, ty: Ty, shape: &str, l: char, r: char, cl: bool, cr: bool, other: u64) -> String {
+    let bit = |k: u32| (other >> k) & 1 == 1;
+    // a second, disjoint range for the list shapes
+    let (p, q) = if l == 'A' { ('N', 'P') } else { ('A', 'B') };
+    let (kw_other, ty_other) = if ty == Ty::Str { ("DEFINT", Ty::Int) } else { ("DEFSTR", Ty::Str) };
+    // statements as data: (keyword, type, ranges as written (first, last, first upper?, last upper?))
+    let main = (l, r, cl, cr);
+    let rev = (r, l, cr, cl);
+    let second = (p, q, bit(0), bit(1));
+    let stmts: Vec<(&str, Ty, Vec<(char, char, bool, bool)>)> = match shape {
+        "single" => vec![(kw, ty, vec![(l, l, cl, cl)])],
+        "ascending" => vec![(kw, ty, vec![main])],
+        "reversed" => vec![(kw, ty, vec![rev])],
+        "same-letter" => vec![(kw, ty, vec![(l, l, cl, cr)])],
+        "two-ranges" => vec![(kw, ty, vec![second, main])],
+        "letter-and-range" => vec![(kw, ty, vec![(p, p, bit(0), bit(0)), main])],
+        "range-and-reversed" => vec![(kw, ty, vec![second, rev])],
+        "two-statements" => vec![(kw, ty, vec![main]), (kw_other, ty_other, vec![second])],
+        _ => vec![(kw, ty, vec![main]), (kw_other, ty_other, vec![(r, r, bit(2), bit(2))])],
+    };
+    let mut lines: Vec<String> = vec![];
+    for (k, _, ranges) in &stmts {
+        let mut items = vec![];
+        for (a, b, ca, cb) in ranges {
+            let single = a == b && shape != "same-letter";
+            items.push(if single { format!("{}", with_case(*a, *ca)) } else { format!("{}-{}", with_case(*a, *ca), with_case(*b, *cb)) });
+        }
+        lines.push(format!("{} {}", k, items.join(", ")));
+    }
+    // Which kind of probe suits a letter (string or numeric) follows from the statement text read without regard
+    // to case; it only keeps the accepted programs accepted and is the same for every spelling of one program.
+    let is_string = |c: char| -> bool {
+        let mut t = Ty::Single;
+        for (_, ty, ranges) in &stmts {
+            for (a, b, _, _) in ranges {
+                if *a <= c && c <= *b {
+                    t = *ty;
+                }
+            }
+        }
+        t == Ty::Str
+    };
+    // probes: a bare name for both ends of the range, a letter inside, one outside, one of the second range
+    let mid = ((l as u8 + r as u8) / 2) as char;
+    let outside = if r == 'Z' { 'Z' } else { (r as u8 + 1) as char };
+    let mut probes = vec![l, r, mid, p];
+    if outside != r {
+        probes.push(outside);
+    }
+    let mut names = vec![];
+    for (k, c) in probes.iter().enumerate() {
+        // definition and use of the probe are spelled independently
+        let def = format!("{}{}v", with_case(*c, bit(3 + k as u32)), with_case('q', bit(8 + k as u32)));
+        let use_ = format!("{}{}V", with_case(*c, bit(13 + k as u32)), with_case('q', bit(18 + k as u32)));
+        if is_string(*c) {
+            lines.push(format!("{} = \"ab\" + \"c\"", def));
+            lines.push(format!("PRINT {}; LEN({})", use_, def));
+        } else {
+            lines.push(format!("{} = 10 / 4", def));
+            lines.push(format!("PRINT {}; {} / 3", use_, def));
+            names.push(use_);
+        }
+    }
+    // INTEGER against LONG: the first numeric probe gets a value beyond 16 bits
+    if let Some(n) = names.first() {
+        lines.push(format!("{} = 40000", n));
+        lines.push(format!("PRINT {}", n));
+    }
+    let mut s = lines.join("\n");
+    s.push('\n');
+    s
+}
+
+fn deftype_family(sh: &mut Shard) -> bool {
+    let mut idx: u64 = 0;
+    for (kw, ty) in DEF_KEYWORDS.iter() {
+        for shape in DEF_SHAPES.iter() {
+            for (l, r) in DEF_LETTER_PAIRS.iter() {
+                for combo in 0..4u32 {
+                    idx += 1;
+                    if !sh.mine(idx) {
+                        continue;
+                    }
+                    let (cl, cr) = (combo & 1 == 1, combo & 2 == 2);
+                    let other = hash64(&(sh.seed, "deftype", idx));
+                    let upper = deftype_program(kw, *ty, shape, *l, *r, true, true, u64::MAX);
+                    let variant = deftype_program(kw, *ty, shape, *l, *r, cl, cr, other);
+                    // keyword spelling: as written (upper), all lower, or per letter
+                    let variant = match other >> 60 & 3 {
+                        0 => variant,
+                        1 => {
+                            // only the statement keywords, the letters keep the enumerated case: lower-case the first word of each line
+                            variant.lines().map(|ln| match ln.split_once(' ') { Some((h, t)) if h.starts_with("DEF") || h == "PRINT" => format!("{} {}", h.to_ascii_lowercase(), t), _ => ln.to_string() }).collect::<Vec<_>>().join("\n") + "\n"
+                        }
+                        _ => {
+                            let kw_flipped = flip_letters(kw, Flip::Random(other), false);
+                            variant.replacen(kw, &kw_flipped, 1)
+                        }
+                    };
+                    let case_name = match (cl, cr) {
+                        (true, true) => "upper-upper",
+                        (false, false) => "lower-lower",
+                        (false, true) => "lower-upper",
+                        (true, false) => "upper-lower",
+                    };
+                    let r = letters_case(sh, "deftype", &format!("{}:{}", shape, case_name), &upper, &variant, case_name, false);
+                    if !sh.report(r) {
+                        return false;
+                    }
+                }
+            }
+        }
+    }
+    sh.exhaustive("DEFtype statements: 5 keywords x 9 statement shapes (single letter, ascending, reversed, same letter, lists, two statements) x 5 letter pairs x the 4 case combinations of the two range letters, each against its all-upper-case spelling");
+    true
+}
+
+// ---------------------------------------------------------------- generated programs: more DEFtype statements
+
+/// Adds 1..=3 DEFtype statements to a generated program (single letters, ascending and — one in six — reversed
+/// ranges, letters written in either case). The generator's own typing knowledge becomes stale, which is
+/// irrelevant here: the oracle only compares two spellings of the same program.
+fn add_deftypes(t: &mut Tape, prog: &mut Program) -> Vec<&'static str> {
+    let mut classes = vec![];
+    let n = 1 + t.choose(3);
+    for _ in 0..n {
+        let ty = *t.pick(&[Ty::Int, Ty::Long, Ty::Single, Ty::Double, Ty::Str]);
+        // letters the generated names start with (I L S D T K) are over-represented so that the statement matters
+        let pool = ['Q', 'I', 'L', 'S', 'D', 'T', 'K', 'A', 'Z', 'M', 'X', 'B'];
+        let x = *t.pick(&pool);
+        let y = *t.pick(&pool);
+        let shape = t.choose(6);
+        let (lo, hi) = if x <= y { (x, y) } else { (y, x) };
+        let (mut a, mut b, class) = match shape {
+            0 | 1 => (x, x, "deftype-added:single-letter"),
+            5 if lo != hi => (hi, lo, "deftype-added:reversed-range"),
+            _ if lo != hi => (lo, hi, "deftype-added:ascending-range"),
+            _ => (x, x, "deftype-added:single-letter"),
+        };
+        let single = a == b;
+        if t.chance(1, 2) {
+            a = a.to_ascii_lowercase();
+        }
+        if t.chance(1, 2) {
+            b = b.to_ascii_lowercase();
+        }
+        if single {
+            b = a; // the printer writes one letter when both are equal
+        }
+        prog.deftypes.push((ty, a, b));
+        classes.push(class);
+    }
+    classes
+}
+
+/// Does the text contain a DEFtype range whose two letters differ in case? Returns (lower-upper, upper-lower) counts.
+fn mixed_case_ranges(text: &str) -> (u32, u32) {
+    let (mut lu, mut ul) = (0, 0);
+    let norm = text.replace('\r', "\n");
+    for line in norm.split('\n') {
+        let (code, _) = split_comment(line);
+        let up = code.trim_start().to_ascii_uppercase();
+        if !(up.starts_with("DEFINT") || up.starts_with("DEFLNG") || up.starts_with("DEFSNG") || up.starts_with("DEFDBL") || up.starts_with("DEFSTR")) {
+            continue;
+        }
+        let cs: Vec<char> = code.trim_start().chars().skip(6).filter(|c| !c.is_whitespace()).collect();
+        for w in cs.windows(3) {
+            if w[1] == '-' && w[0].is_ascii_alphabetic() && w[2].is_ascii_alphabetic() {
+                if w[0].is_ascii_lowercase() && w[2].is_ascii_uppercase() {
+                    lu += 1;
+                } else if w[0].is_ascii_uppercase() && w[2].is_ascii_lowercase() {
+                    ul += 1;
+                }
+            }
+        }
+    }
+    (lu, ul)
+}
+
 impl Prop for C09 {
     fn id(&self) -> &'static str {
         "C09"
     }
     fn rule(&self) -> &'static str {
-        "Generated programs (core, calls, control-flow, arrays/records; one third with an injected static fault so that rejected programs are covered too) are rendered twice by the IR printer under two layouts drawn independently (keyword/identifier case per token, blanks/tabs where a blank is legal, optional blanks after , ; and inside parentheses, blank lines, comment lines, trailing comments, newline vs colon between consecutive simple statements, LF/CRLF/CR, with/without final line end), and the repository's own program texts are transformed by a string/comment-aware text transformer (case outside strings/comments/DATA, blank lines, trailing comments, line-ending convention). Required: (1) equal parse trees after erasing positions, dropping comment statements and folding identifier case; (2) same parser/checker verdict (error class, and the error lands in the same statement via the two site maps); (3) same stdout/LPT1, same error code, error position in the same statement. Non-trivial = at least one site changed and >= 3 lines; distinct by the pair of texts."
+        "Generated programs (core, calls, control-flow, arrays/records; one third with an injected static fault so that rejected programs are covered too) are rendered twice by the IR printer under two layouts drawn independently (keyword/identifier case per token, blanks/tabs where a blank is legal, optional blanks after , ; and inside parentheses, blank lines, comment lines, trailing comments, newline vs colon between consecutive simple statements, LF/CRLF/CR, with/without final line end), and the repository's own program texts are transformed by a string/comment-aware text transformer (case outside strings/comments/DATA, blank lines, trailing comments, line-ending convention). Required: (1) equal parse trees after erasing positions, dropping comment statements and folding identifier case; (2) same parser/checker verdict (error class, and the error lands in the same statement via the two site maps); (3) same stdout/LPT1, same error code, error position in the same statement. Non-trivial = at least one site changed and >= 3 lines; distinct by the pair of texts. Letter case per token class: (a) one generated case in four gets 1-3 additional DEFtype statements (single letters, ascending and reversed ranges, letters in either case) and one in three has layout b re-cased once more on the text, every letter independently; (b) a family of ~60 small programs, accepted and rejected ones, one per letter-carrying token class (block and operator keywords, built-in names, PRINT forms, labels and jumps, bare/suffixed names, DIM ... AS type names, constants, arrays, TYPE and member names, procedure names/parameters/DECLARE, FOR/NEXT counters, file-mode words, console input, DATA/READ, screen statements, digits of &H literals, DEFtype lists; rejections by duplicate/undefined/mismatching names that differ from their definition only by case) is compared with its all-lower, all-upper, alternating and random per-letter spellings; (c) DEFtype statements are enumerated: 5 keywords x 9 statement shapes x 5 letter pairs x the 4 case combinations of the two range letters, each compared with its all-upper-case spelling (probe variables on both ends, inside and outside of the range show the resulting types in the output). For (b) and (c) the error must stay in the same source line."
     }
     fn assumptions(&self) -> Vec<&'static str> {
         vec![
             "a blank between an array name and its opening parenthesis is not treated as 'a place where a blank is allowed' (never generated)",
             "`Name:` at the start of a line is a label: an argument-less call is never followed by a colon join",
             "DATA lines are left untouched by the text transformer",
+            "the radix letter of &H / &O literals is not a keyword or identifier letter: left as written (a lower-case &h is a syntax error in this parser); the digits A-F are re-cased in one family member only",
+            "FIELD/LSET programs: trees are not compared after a case change (the variable names are string payloads), verdict and behaviour are",
         ]
     }
     fn run(&self, sh: &mut Shard) {
@@ -580,6 +1068,28 @@ impl Prop for C09 {
                 }
             }
         }
+        // every letter-carrying token class, accepted and rejected programs, under fixed and random per-letter re-casings
+        let fam = token_class_family();
+        let reps = sh.tier.pick(4, 60);
+        let mut idx: u64 = 0;
+        for (i, (class, text)) in fam.iter().enumerate() {
+            for flip in family_flips(sh.seed, i, reps) {
+                idx += 1;
+                if !sh.mine(idx) {
+                    continue;
+                }
+                let hex = *class == "hex-octal-literals";
+                let b = flip_letters(text, flip, hex);
+                let r = letters_case(sh, "token-class", class, text, &b, flip.name(), hex);
+                if !sh.report(r) {
+                    return;
+                }
+            }
+        }
+        // DEFtype statements, enumerated
+        if !deftype_family(sh) {
+            return;
+        }
     }
     fn replay(&self, sh: &mut Shard, inputs: &Value) -> Result<(), Violation> {
         let a = inputs["text_a"].as_str().unwrap_or("");
@@ -592,6 +1102,11 @@ impl Prop for C09 {
             let up = a.to_uppercase();
             let names_as_strings = up.contains("FIELD") || up.contains("LSET");
             return run_pair_opt(&ra, &rb, "corpus", inputs.clone(), !names_as_strings).map(|_| ());
+        }
+        if inputs["kind"] == "letters" {
+            let ra = rendered_by_rows(a);
+            let rb = rendered_by_rows(b);
+            return run_pair_io(&ra, &rb, inputs["what"].as_str().unwrap_or("replay"), inputs.clone(), !names_as_strings(a), Some(FAMILY_STDIN)).map(|_| ());
         }
         let ra = rendered_from(a, &inputs["sites_a"]);
         let rb = rendered_from(b, &inputs["sites_b"]);
